@@ -795,6 +795,13 @@ def check_play(desc, r, model):
         inst += collector_log_moods(r["rundir"])
         tol = Fraction(51, 10000)
         out["counts"].append("range:with-unchanged-mood-events")
+    # since c9d1f38 `assemble` also widens the range by what the audition holds: the act starts (the lines of plot.gp
+    # show them; the first one lies between 0 and the first action) and the end of a mood that still reigns when the
+    # audition ends
+    inst += list(arrows)
+    if f["changes"] and f["changes"][-1][1] != "clear" and f["elapsed"] is not None:
+        inst.append(f["elapsed"])
+        tol = max(tol, Fraction(2, 10000))
     ans = model.ask("C19 range " + (",".join(rat(t) for t in inst) or "-"))
     try:
         lo, hi = [Fraction(x) for x in ans.split(" ")]
